@@ -172,3 +172,111 @@ Proof.
   intros Hne T G A0 pc e r Hpc Hin. destruct (K Hne T G A0 pc e r Hpc Hin) as [Hc Hnet].
   exists (abs_def sf (get_def cur sf)). split; [apply Hd; exact Hc|exact Hnet].
 Qed.
+
+(* ================= the input class, as a boolean predicate ================= *)
+Definition datom_typedb (E : cenv) (a : datom) : bool :=
+  negb (has_glob (atom_name a)) &&
+  match atom_l a, atom_r a with
+  | Some h, Some l => match E (atom_name a) with
+                      | Some (lo, w) => (lo <=? l) && (l <=? h) && (h <=? lo + Z.of_nat w - 1)
+                      | None => false end
+  | Some i, None => match E (atom_name a) with
+                    | Some (lo, w) => (lo <=? i) && (i <=? lo + Z.of_nat w - 1)
+                    | None => false end
+  | None, _ => true
+  end.
+
+Definition dexpr_typedb (E : cenv) (e : dexpr) : bool :=
+  match e with
+  | DAtom a => datom_typedb E a
+  | DCat l => match l with [] => false | _ => forallb (datom_typedb E) l end
+  end.
+
+Definition conn_typedb (E : cenv) (pc : str * option dexpr) : bool :=
+  match snd pc with Some e => dexpr_typedb E e | None => true end.
+
+Lemma datom_typedb_ok E a : datom_typedb E a = true -> datom_typed E a.
+Proof.
+  unfold datom_typedb, datom_typed. intro H. apply andb_true_iff in H. destruct H as [G H].
+  split; [destruct (has_glob _); [discriminate|reflexivity]|].
+  destruct (atom_l a) as [h|]; [|exact Logic.I]. destruct (atom_r a) as [l|].
+  - destruct (E (atom_name a)) as [[lo w]|]; [|discriminate]. exists lo, w. split; [reflexivity|].
+    apply andb_true_iff in H. destruct H as [H H3]. apply andb_true_iff in H. destruct H as [H1 H2].
+    apply Z.leb_le in H1, H2, H3. lia.
+  - destruct (E (atom_name a)) as [[lo w]|]; [|discriminate]. exists lo, w. split; [reflexivity|].
+    apply andb_true_iff in H. destruct H as [H1 H2]. apply Z.leb_le in H1, H2. lia.
+Qed.
+
+Lemma dexpr_typedb_ok E e : dexpr_typedb E e = true -> dexpr_typed E e.
+Proof.
+  destruct e as [a|l]; cbn; [apply datom_typedb_ok|]. destruct l as [|a l]; [discriminate|]. intro H.
+  split; [discriminate|]. apply Forall_forall. intros x Hx. apply datom_typedb_ok. eapply (proj1 (forallb_forall _ _) H). exact Hx.
+Qed.
+
+Lemma conn_typedb_ok E pc : conn_typedb E pc = true -> conn_typed E pc.
+Proof. unfold conn_typedb, conn_typed. destruct (snd pc); [apply dexpr_typedb_ok|auto]. Qed.
+
+(* the state in which the reader arrives at an item: after the modules [pre], the header of m, the items [before] *)
+Definition reach_before (pre : vdoc) (m : vmodule) (before : list vitem) : option (estate * nat) :=
+  match fold_res module_decl pre st_init with
+  | Ok s0 => match module_open m s0 with
+             | Ok (s5, cur) => match fold_res (body_item cur) before s5 with Ok s => Some (s, cur) | Err _ => None end
+             | Err _ => None end
+  | Err _ => None
+  end.
+
+(* what the module knows of its nets at that point *)
+Definition env_before (pre : vdoc) (m : vmodule) (before : list vitem) : cenv :=
+  match reach_before pre m before with Some (s, cur) => crange (get_def cur s) | None => fun _ => None end.
+
+Definition pos_before (pre : vdoc) (m : vmodule) (before : list vitem) : nat :=
+  match reach_before pre m before with Some (_, cur) => cur | None => O end.
+
+Definition not_port_declb (it : vitem) : bool := match it with IPortDecl _ _ _ _ _ => false | _ => true end.
+
+(* the input class for the connection clause of one instance: m is a module (not a `celldefine cell) that does not
+   instantiate itself here; every select of the port map lies inside the range the net has at that point, no name is a
+   glob pattern; the ports the instantiated definition has so far (declared earlier in the file, or made by earlier
+   instances) are based at 0; no port declaration follows in the body; no later module re-declares m or declares the
+   instantiated module *)
+Definition inst_in_class (pre : vdoc) (m : vmodule) (post : vdoc) (before : list vitem) (m' : str)
+    (l : list (str * option dexpr)) (after : list vitem) : bool :=
+  negb (vm_cell m) && negb (str_eqb (vm_name m) m') && forallb not_port_declb after &&
+  forallb (fun m2 => negb (str_eqb (vm_name m2) (vm_name m)) && negb (str_eqb (vm_name m2) m')) post &&
+  match reach_before pre m before with
+  | Some (s, cur) =>
+      forallb (conn_typedb (crange (get_def cur s))) l && forallb (fun pc => negb (has_glob (fst pc))) l &&
+      match find_def m' s with
+      | Some k => forallb (fun p => b_lo (ep_b p) =? 0) (ed_ports (get_def k s))
+      | None => true end
+  | None => false
+  end.
+
+Lemma str_eqb_false_ne a b : str_eqb a b = false -> a <> b.
+Proof. intros H E. subst. rewrite str_eqb_refl in H. discriminate. Qed.
+
+Theorem module_instance_class pre m post before m' i params attrs l after n :
+  elab (pre ++ m :: post) = Ok n ->
+  vm_body m = before ++ IInst m' i params attrs (CNamed l) :: after ->
+  inst_in_class pre m post before m' l after = true ->
+  forall pc e r, In pc l -> In (e, r) (conn_meaning i (env_before pre m before) pc) ->
+  exists d, nth_error (nv_defs n) (pos_before pre m before) = Some d /\ In e (net_of r d).
+Proof.
+  intros H B Cl pc e r Hpc Hin. unfold inst_in_class in Cl.
+  apply andb_true_iff in Cl. destruct Cl as [Cl C5]. apply andb_true_iff in Cl. destruct Cl as [Cl C4].
+  apply andb_true_iff in Cl. destruct Cl as [Cl C3]. apply andb_true_iff in Cl. destruct Cl as [C1 C2].
+  assert (Cc : vm_cell m = false) by (destruct (vm_cell m); [discriminate|reflexivity]).
+  assert (Hne : vm_name m <> m') by (apply str_eqb_false_ne; destruct (str_eqb _ _); [discriminate|reflexivity]).
+  assert (NP : Forall not_port_decl after).
+  { apply Forall_forall. intros x Hx. assert (Y := proj1 (forallb_forall _ _) C3 x Hx). destruct x; try exact Logic.I. discriminate. }
+  assert (FP : Forall (fun m2 => vm_name m2 <> vm_name m /\ vm_name m2 <> m') post).
+  { apply Forall_forall. intros x Hx. assert (Y := proj1 (forallb_forall _ _) C4 x Hx). apply andb_true_iff in Y. destruct Y as [Y1 Y2].
+    split; apply str_eqb_false_ne; [destruct (str_eqb (vm_name x) (vm_name m))|destruct (str_eqb (vm_name x) m')]; try discriminate; reflexivity. }
+  destruct (module_instance_value pre m post before m' i params attrs l after n H Cc B NP FP) as (s0 & s5 & cur & s & E0 & E5 & Es & _ & _ & _ & K).
+  unfold env_before, pos_before, reach_before in *. rewrite E0, E5, Es in *.
+  apply andb_true_iff in C5. destruct C5 as [C5 C8]. apply andb_true_iff in C5. destruct C5 as [C6 C7].
+  refine (K Hne _ _ _ pc e r Hpc Hin).
+  - apply Forall_forall. intros x Hx. apply conn_typedb_ok. exact (proj1 (forallb_forall _ _) C6 x Hx).
+  - apply Forall_forall. intros x Hx. assert (Y := proj1 (forallb_forall _ _) C7 x Hx). cbn beta in Y |- *. destruct (has_glob (fst x)) eqn:Eg; [cbn in Y; discriminate Y|reflexivity].
+  - intros k Hk. rewrite Hk in C8. intros p Hp. apply Z.eqb_eq. exact (proj1 (forallb_forall _ _) C8 p Hp).
+Qed.
